@@ -384,7 +384,10 @@ def heartbeat_scenarios():
         forgot = len(mgr._heartbeat_tasks) == 0 and len(sock.subs) == 0
         # session 2 on the same object
         n0, t0 = len(sock.sent), loop.time()
+        turned = []
+        loop.call_soon(turned.append, 1)     # runs as soon as the current task lets the loop take a turn
         await mgr.start()
+        start_atomic = turned == []
         await mgr.start()
         started_again = len(mgr._heartbeat_tasks) == 2 and len(sock.subs) == 1
         await asyncio.sleep(700.0)
@@ -393,9 +396,11 @@ def heartbeat_scenarios():
         await mgr.stop()
         policies = [p for _, _, p in sock.sent]
         gaps = [b - a for a, b in zip([t for t, *_ in sock.sent if t > 610.0 and t < 1210.0], [t for t, *_ in sock.sent if t > 610.0 and t < 1210.0][1:])]
-        return sent_down, sent_up_again, raised, forgot, started_again, sent2, resets2, policies, gaps
+        return sent_down, sent_up_again, raised, forgot, started_again, sent2, resets2, policies, gaps, start_atomic
 
-    (sent_down, sent_up_again, raised, forgot, started_again, sent2, resets2, policies, gaps), net, _ = vloop.run(main)
+    (sent_down, sent_up_again, raised, forgot, started_again, sent2, resets2, policies, gaps, start_atomic), net, _ = vloop.run(main)
+    out["start completes without suspending (the last handshake step relies on it: it creates the AT4 poll task and marks the "
+        "object initialised right after awaiting start, with no look at what happened meanwhile)"] = start_atomic
     # a tick whose send is refused (the queue still holds ten messages buffered during an outage / the socket was closed)
     survived = True
     for exc_name in ("QueueOverflowError", "NotOpenError"):
